@@ -8,16 +8,42 @@ from .expr import Inliner, nf, nf_text, rename
 from .report import Finding
 
 
+INLINED_AWAY = {}
+
+
+def _expand_gone(text, gone):
+    """Replace `self._name` (attribute) by the definition of the helper that was inlined away."""
+    tree = ast.parse(text, mode='eval')
+
+    class T(ast.NodeTransformer):
+        def visit_Attribute(self, node):
+            self.generic_visit(node)
+            if isinstance(node.value, ast.Name) and node.value.id == 'self' and node.attr in gone:
+                return ast.parse(gone[node.attr], mode='eval').body
+            return node
+    return ast.unparse(T().visit(tree))
+
+
 def returns_match(repo, res, rule, fullname, accepted, meaning, setter=False, cls=None, strip_with=True):
     """Every value returned by `fullname` has one of the accepted normal forms
     (written as python expressions over the function's own names)."""
     key = fullname + ('.setter' if setter else '')
     f = repo.functions.get(key)
+    short = fullname.rsplit('.', 1)[-1]
     if f is None:
+        if short.startswith('_') and not short.startswith('__'):
+            # a private helper that no longer exists was inlined into its callers: remember its definition and expand it in
+            # the accepted forms of the specs that mention it (the callers are then checked against the expanded definition)
+            INLINED_AWAY.setdefault(id(repo), {})[short] = accepted[0]
+            res.notes.setdefault('private_helpers_inlined_away', []).append(fullname)
+            return None
         raise AnalysisError(f'vanished anchor: {fullname}')
     inl = Inliner(f.node)
     if not inl.returns:
         raise AnalysisError(f'{fullname}: no return statement found')
+    gone = INLINED_AWAY.get(id(repo), {})
+    if gone:
+        accepted = list(accepted) + [_expand_gone(a, gone) for a in accepted]
     want = {nf_text(a) for a in accepted}
     for e, rnode in inl.returns:
         got = nf(e)
